@@ -304,12 +304,12 @@ def family_xz(ctx, j, quick, rnd, pool, cap=None, nrand=None):
     t0 = time.time()
     # ---- stage 1: the as-built design, all properties; in parallel the regressed designs (probes) and the export run
     design_c = xz_consts(CheckIds="{0,1}" if quick else "{0,1,4,10}", HSizes="{12}" if quick else "{12,16}",
-                         CSizes="{5,6,7}" if quick else "{5,6,7,8}")
-    f_design = pool.submit(xz_model, design_c, XZ_INV, 4)
+                         CSizes="{5,6,7}" if quick else "{5,6,7,8}", MaxUnits="3" if quick else "4", MaxWrite="3" if quick else "4")
+    f_design = pool.submit(xz_model, design_c, XZ_INV, 2 if quick else 6)
     export_c = xz_consts(CheckIds="{0,1,4,10}", LimitOpts="{0,1,2,3}", HSizes="{12,16,20}" if not quick else "{12,16}", CSizes="{5}",
                          MaxUnits="4" if quick else "5", MaxWrite="4" if quick else "5", MaxBlocks="3" if quick else "4",
                          AllowFlush="TRUE", Multis="{FALSE}")
-    f_export = pool.submit(xz_model, export_c, ["ExportW"], 4, 900, False)
+    f_export = pool.submit(xz_model, export_c, ["ExportW"], 2, 900, False)
     probes = []
     for k in ("IndexCountsHeader", "EmptyInputWritesBlock", "BlockLimitPerByte"):
         val, what = REGRESSIONS[k]
@@ -356,7 +356,9 @@ def family_xz(ctx, j, quick, rnd, pool, cap=None, nrand=None):
         # keep every empty-input / single-write behaviour, sample the rest
         must = [st for st in exported if len(st["calls"]) <= 2]
         rest = [st for st in exported if len(st["calls"]) > 2]
-        exported = must + rnd.sample(rest, cap - len(must))
+        if len(must) > cap // 2:
+            must = rnd.sample(must, cap // 2)
+        exported = must + rnd.sample(rest, min(len(rest), cap - len(must)))
     for i, st in enumerate(exported):
         scns.append(xz_write_scn(f"xz-{i}", st, rnd))
         meta.append(("tlc-scn", st, None))
@@ -645,10 +647,10 @@ def lz_events(s, r):
 
 def family_lzip(ctx, j, quick, rnd, pool, cap=None):
     t0 = time.time()
-    f_design = pool.submit(lz_model, lz_consts(), LZ_INV, 3)
+    f_design = pool.submit(lz_model, lz_consts(), LZ_INV, 2)
     f_export = pool.submit(lz_model, lz_consts(Dicts="{4096,4608,5000,65536,70000,131072}" if quick else "{4096,4097,4608,4609,5000,65536,70000,98304,131072}",
                                                WriteSizes="{2500,6000,90000}" if quick else "{1,2500,6000,70000,90000}",
-                                               MaxBytes="180000" if quick else "200000", MaxCalls="3" if quick else "4", MaxMembers="8"), ["ExportL"], 3, 900, False)
+                                               MaxBytes="180000" if quick else "200000", MaxCalls="3" if quick else "4", MaxMembers="8"), ["ExportL"], 2, 900, False)
     probes = []
     val, what = REGRESSIONS["DictByteRoundsUp"]
     if ASBUILT["DictByteRoundsUp"] != val:
@@ -696,7 +698,9 @@ def family_lzip(ctx, j, quick, rnd, pool, cap=None):
     if len(exported) > cap:
         must = [c for c in exported if len(c["calls"]) <= 2]
         rest = [c for c in exported if len(c["calls"]) > 2]
-        exported = must + rnd.sample(rest, max(0, cap - len(must)))
+        if len(must) > cap // 2:
+            must = rnd.sample(must, cap // 2)
+        exported = must + rnd.sample(rest, min(len(rest), max(0, cap - len(must))))
     for i, c in enumerate(exported):
         scns.append(lz_write_scn(f"lz-{i}", c, rnd))
         meta.append(("tlc-scn", c, None))
@@ -1361,7 +1365,7 @@ def family_concat_xz(ctx, j, quick, rnd, pool, want_recs=False):
                                          MaxStreams="2", Pads="{0,4,8,1,2,3,5}"))),
             ("3 streams", xz_consts(**dict(base, CheckIds="{1}" if quick else "{1,10}", LimitOpts="{0}", MaxUnits="1", MaxWrite="1",
                                          MaxStreams="3", Pads="{0,4,3}" if quick else "{0,4,8,2,5}")))]
-    futs = [(name, pool.submit(xz_model, c, inv, 4, 900, True)) for name, c in cfgs]
+    futs = [(name, pool.submit(xz_model, c, inv, 2 if quick else 6, 1500, True)) for name, c in cfgs]
     probes = []
     val, what = REGRESSIONS["MagicTestInverted"]
     if ASBUILT["MagicTestInverted"] != val:
@@ -1442,7 +1446,7 @@ def family_concat_lz(ctx, j, quick, rnd, pool):
     t0 = time.time()
     c = lz_consts(Dicts="{4096,5000}", LimitOpts="{0,3000}", WriteSizes="{2500,7000}" if quick else "{1,2500,7000}", MaxBytes="9500",
                   MaxCalls="2", MaxFiles="2" if quick else "3", MaxMembers="5", Fars="{FALSE}")
-    r = lz_model(c, ["TypeOK", "XWellFormed", "XScanOrder", "XRoundTrip", "ExportL"], 4, 900, True)
+    r = lz_model(c, ["TypeOK", "XWellFormed", "XScanOrder", "XRoundTrip", "ExportL"], 2 if quick else 6, 1500, True)
     ctx.note_tlc("LzipContainer concat design (as built)", r)
     log(f"[tlc] LzipContainer concat: {r}")
     if not r.ok:
